@@ -16,13 +16,16 @@ Record case := mkCase {
   c_blocks : list block;
   c_apply : list (sroot * bid * option sroot);
   c_arrivals : list (N * nat);       (* LIB reported before the arrival, index into c_blocks *)
-  c_modes : list N;                  (* per arrival: pre-check outcome 0 ok / 1 timestamp / 2 sign, +4 = produced by the node itself *)
+  c_modes : list N;                  (* per arrival: pre-check outcome 0 ok / 1 timestamp / 2 sign, +4 = produced by the node itself,
+                                        +8 = body pre-written by the consensus WAL *)
   c_txs : list txid;
   c_heights : nat;                    (* heights 0 .. c_heights-1 are observed *)
   c_cap : nat;
   c_f7 : bool;
   c_f27 : bool;
   c_f28 : bool;      (* fixes/F28_query_nil_deref.diff: queries no longer dereference a nil main-chain block *)
+  c_wal : bool;      (* consensus configuration: HasWAL() *)
+  c_params : list (sroot * N);   (* system parameters (numbered) stored in the state of each root *)
   c_expected : list (list N)
 }.
 
@@ -62,6 +65,9 @@ Definition tx_obs (f28 : bool) (d : store) (t : txid) : list N :=
 Fixpoint seqN (start : N) (len : nat) : list N :=
   match len with O => [] | S l => start :: seqN (start + 1) l end.
 
+Definition params_of (tbl : list (sroot * N)) (r : sroot) : N :=
+  match find (fun e => fst e =? r) tbl with Some e => snd e + 1 | None => 0 end.
+
 Definition observe (c : case) (n : node) (r : result) : list N :=
   let d := dur n in
   [res_code r; hash_field (best n); no (best n); optN (get_latest d); sdb_root n]
@@ -77,20 +83,22 @@ Definition observe (c : case) (n : node) (r : result) : list N :=
   ++ [N.of_nat (length (filter (fun e => match e with EvMemPoolPut _ => true | _ => false end) (evs n)))]
   ++ rev (concat (map (fun e => match e with EvMemPoolDel b => [b] | _ => [] end) (evs n)))
   ++ [N.of_nat (length (filter (fun e => match e with EvSyncStart _ => true | _ => false end) (evs n)))]
+  ++ [params_of (c_params c) (pmem n)]
   ++ [optN (match find_ancestor d (rev (map hash_field (c_blocks c)) ++ [hash_field (c_genesis c)]) with
             | Some a => Some (hash_field a) | None => None end)].
 
 Definition clear_evs (n : node) : node :=
-  mkNode (dur n) (best n) (sdb_root n) (orphans n) (bad n) (lib n) (jlog n) [].
+  mkNode (dur n) (best n) (sdb_root n) (orphans n) (bad n) (lib n) (jlog n) [] (pmem n).
 
 Definition dummy_block : block := mkBlock 0 0 0 0 [] 0.
 
 Definition mode_pre (m : N) : precheck :=
   match m mod 4 with 1 => PreTimestamp | 2 => PreSign | _ => PreOk end.
-Definition mode_own (m : N) : bool := 4 <=? m.
+Definition mode_own (m : N) : bool := 4 <=? m mod 8.
+Definition mode_wal (m : N) : bool := 8 <=? m.
 
 Definition step_node (c : case) (n : node) (l : N) (i : nat) (m : N) : node * result :=
-  add_block_gen (apply_tbl (c_apply c)) (c_f7 c) (c_f27 c) (c_cap c) (mode_own m) (mode_pre m)
+  add_block_cfg (apply_tbl (c_apply c)) (c_f7 c) (c_f27 c) (c_cap c) (c_wal c) (mode_wal m) (mode_own m) (mode_pre m)
                 (set_lib (clear_evs n) l) (nth i (c_blocks c) dummy_block).
 
 Fixpoint run_steps (c : case) (n : node) (arr : list (N * nat)) (modes : list N) : list (list N) :=
